@@ -137,6 +137,9 @@ func bsWorldGen(r *Run, rng *Rng, w *bsWorld, steps int, allowRm bool) {
 			// reorg: anywhere in [first-1, tip+2]
 			lo := g.first - 1
 			b := lo + uint64(rng.Intn(int(g.tip-lo)+3))
+			if g.tip > lo && rng.Chance(30) {
+				b = g.tip // the most common reorg: exactly the last stored block
+			}
 			if rng.Chance(35) {
 				// the reorg transaction fails at its block / root delete first; the driver retries
 				wasHalted := w.p.IsHalted()
@@ -264,7 +267,7 @@ func bsWorldGen(r *Run, rng *Rng, w *bsWorld, steps int, allowRm bool) {
 				}
 				w.compareWithTwin(r, "after fault and retry")
 			} else if obs := w.exec(r, fmt.Sprintf("blk %d - %s", bn, evs)); obs != "ok" {
-				r.Fail("[C04,C07,C14] a well-formed block was refused: "+obs, append([]string{"new"}, w.lines...))
+				r.Fail("[C01,C04,C07,C14] a well-formed block was refused: "+obs, append([]string{"new"}, w.lines...))
 			}
 			g.tip = bn
 			bn += 1 + uint64(rng.Intn(2))
